@@ -471,6 +471,102 @@ theorem repeated_loads_agree (w : World) (ops : List Op) (ds : Comp) (file1 file
   simp only [loadArchive] at this ⊢
   rw [this]
 
+/-! ### every branch of content loading ends in the same post-filter -/
+
+/-- the truncated read returns a suffix of the file's lines (so everything proved for "all
+contents" applies to what was read), the whole file when it is not above the limit, and strictly
+less when it is -/
+theorem read_is_suffix (m : Nat) (ls : List Str) :
+    (∃ j, readLines m ls = ls.drop j) ∧ (isHuge m ls = false → readLines m ls = ls) ∧
+    (isHuge m ls = true → (readLines m ls).length < ls.length) := by
+  unfold readLines
+  refine ⟨?_, ?_, ?_⟩
+  · split
+    · exact ⟨_, rfl⟩
+    · exact ⟨0, rfl⟩
+  · intro h; simp [h]
+  · intro h
+    simp only [h, if_true, List.length_drop]
+    cases ls with
+    | nil => simp [isHuge] at h
+    | cons x xs =>
+      have : 0 < dropCount (List.map lineBytes (x :: xs)) ((List.map lineBytes (x :: xs)).sum - m) := by
+        simp only [List.map_cons, dropCount]; split <;> omega
+      simp only [List.length_cons]; omega
+
+/-- **off-host, with filters, EVERY branch of load() is post-filtered**: whether the file is read
+whole or only its tail, the content is `filter_content` of what was read — a sub-sequence of the
+file in which every line contains a registered filter string -/
+theorem load_offhost_filtered (grep : List Str → List Str → List Str) (m : Nat) (fs : Allow)
+    (file : List Str) (hfs : fs ≠ []) :
+    loadFile grep m false fs file = filterContent (readLines m file) fs ∧
+    (loadFile grep m false fs file).Sublist file ∧
+    ∀ l ∈ loadFile grep m false fs file, ∃ k ∈ keys fs, isInfix k l = true := by
+  have he : fs.isEmpty = false := by cases fs with | nil => exact absurd rfl hfs | cons _ _ => rfl
+  have h1 : loadFile grep m false fs file = filterContent (readLines m file) fs := by
+    simp [loadFile, he]
+  refine ⟨h1, ?_, ?_⟩
+  · rw [h1]
+    obtain ⟨j, hj⟩ := (read_is_suffix m file).1
+    rw [hj]
+    exact (filter_sublist _ fs).trans (List.drop_sublist j file)
+  · intro l hl
+    rw [h1] at hl
+    exact kept_matches _ fs l hl
+
+/-- … and nothing of what was read is lost except to an exhausted budget: with budgets above the
+number of lines read, EVERY line of the part read that contains a filter string is kept (in both
+branches); for small budgets `last_match_kept` / `dropped_only_when_exhausted` apply to `readLines m file` -/
+theorem load_offhost_keeps_matches_of_read (grep : List Str → List Str → List Str) (m : Nat) (fs : Allow)
+    (file : List Str) (hfs : fs ≠ []) (hb : ∀ e ∈ fs, ((readLines m file).length : Int) < e.2) :
+    loadFile grep m false fs file = grepF (keys fs) (readLines m file) := by
+  rw [(load_offhost_filtered grep m fs file hfs).1]
+  exact large_budgets_keep_every_match _ fs hb
+
+/-- below the limit `load()` is the pipeline the earlier theorems speak about -/
+theorem load_small_is_providerContent (m : Nat) (host : Bool) (fs : Allow) (file : List Str)
+    (hs : isHuge m file = false) (hfs : fs ≠ []) :
+    loadFile grepF m host fs file = (if host then grepF (keys fs) file else filterContent file fs) := by
+  have he : fs.isEmpty = false := by cases fs with | nil => exact absurd rfl hfs | cons _ _ => rfl
+  cases host <;> simp [loadFile, he, (read_is_suffix m file).2.1 hs]
+
+/-- the full statement for `stream()`: with filters in force every non-empty streamed line contains one -/
+def StreamFiltered : Prop :=
+  ∀ (m : Nat) (host loaded : Bool) (fs : Allow) (file : List Str), fs ≠ [] →
+    ∀ l ∈ streamFile grepF m host loaded fs file, l ≠ [] → ∃ k ∈ keys fs, isInfix k l = true
+
+/-- it holds on a host (grep) and off-host once a non-empty content has been loaded … -/
+theorem stream_filtered_partial (m : Nat) (host loaded : Bool) (fs : Allow) (file : List Str) (hfs : fs ≠ [])
+    (h : host = true ∨ (loaded = true ∧ loadFile grepF m host fs file ≠ [])) :
+    ∀ l ∈ streamFile grepF m host loaded fs file, ∃ k ∈ keys fs, isInfix k l = true := by
+  have he : fs.isEmpty = false := by cases fs with | nil => exact absurd rfl hfs | cons _ _ => rfl
+  have hgrep : ∀ l ∈ grepF (keys fs) file, ∃ k ∈ keys fs, isInfix k l = true :=
+    fun l hl => (((grepF_spec (keys fs) file).2 l).mp hl).2
+  have hload : ∀ l ∈ loadFile grepF m host fs file, ∃ k ∈ keys fs, isInfix k l = true := by
+    cases host with
+    | true => simpa [loadFile, he] using hgrep
+    | false => exact (load_offhost_filtered grepF m fs file hfs).2.2
+  intro l hl
+  unfold streamFile at hl
+  split at hl
+  · exact hload l hl
+  · rename_i hn
+    rcases h with rfl | ⟨rfl, hne⟩
+    · simp only [he, Bool.not_false, Bool.and_self, if_true] at hl
+      exact hgrep l hl
+    · exfalso; apply hn
+      cases hc : loadFile grepF m host fs file with
+      | nil => exact absurd hc hne
+      | cons _ _ => simp
+
+/-- … and is FALSE off-host before the content is loaded: `_stream()` re-opens the file and yields it
+unfiltered (known finding archive-stream-unfiltered; StreamParser consumes `stream()`) -/
+theorem stream_unfiltered_witness : ¬ StreamFiltered := by
+  intro h
+  have := h 1000 false false [("x".toList, 1)] ["a x".toList, "b".toList] (by decide) "b".toList (by decide) (by decide)
+  revert this
+  decide
+
 /-! ## non-vacuity -/
 
 def exAllow : Allow := [("a".toList, 1), ("b".toList, 2)]
@@ -502,6 +598,14 @@ example : FirstDs exWorld 2 0 := FirstDs.step (by decide) (by decide) (FirstDs.h
 example : Reach exWorld 1 0 := Reach.step (by decide) (by decide) (Reach.here (by decide))
 example : filterContent exLines [("a".toList, 6), ("b".toList, 7)] = grepF ["a".toList, "b".toList] exLines := by decide
 example : specFilterable exWorld 1 = true := by decide
+-- the truncated-read branch: 3 lines of 4 bytes, limit 6 -> offset 6 falls into line 2, only line 3 is read
+example : isHuge 6 ["a x".toList, "b x".toList, "c x".toList] = true := by decide
+example : readLines 6 ["a x".toList, "b x".toList, "c x".toList] = ["c x".toList] := by decide
+example : loadFile grepF 6 false [("x".toList, 5)] ["a x".toList, "b x".toList, "c x".toList] = ["c x".toList] := by decide
+example : loadFile grepF 9 false [("x".toList, 5)] ["a x".toList, "b x".toList, "c x".toList] = ["b x".toList, "c x".toList] := by decide
+-- offset exactly at the first byte of line 2: that complete line is discarded as "broken" all the same
+example : loadFile grepF 8 false [("x".toList, 5)] ["a x".toList, "b x".toList, "c x".toList] = ["c x".toList] := by decide
+example : loadFile grepF 6 true [("x".toList, 5)] ["a x".toList, "b".toList, "c x".toList] = ["a x".toList, "c x".toList] := by decide
 example : (loadArchive exWorld (run exWorld [.add 0 (some ["b".toList]) (some 1)]) 1 exLines).2 = ["ab".toList] := by decide
 
 end IV.Filters
